@@ -204,6 +204,10 @@ func runVdrProperty(c *Ctx, prop string) {
 		}
 		if c.Rng.Intn(6) == 0 { // a chunk fails, mrp is restarted, the chunk is retried
 			sp.FailChunk = true
+		} else if c.Rng.Intn(5) == 0 { // a consumer of files fails (each manifestation), mrp is restarted, it is retried
+			sp.FailConsumer = []string{"errors", "assert", "exit"}[c.Rng.Intn(3)]
+			sp.FailAt = c.Rng.Intn(4)
+			sp.LateConsumers = false
 		} else if c.Rng.Intn(4) == 0 { // interruption and restart
 			sp.CrashAt = []int{4 + c.Rng.Intn(25)}
 			if c.Rng.Intn(2) == 0 {
